@@ -76,7 +76,7 @@ def cases(ctx):
 
 
 def evidence_extra(ctx):
-    return {'bounds': '(a) all line sequences of length 1..%d over 4 kinds x configurations within %d deviations over %s + 6 longer files; (b) all sequences of <=%d of 19 operations x 3 input forms x {1,3} sources; (c) record sequences'
+    return {'bounds': '(a) all line sequences of length 1..%d over 4 kinds x configurations within %d deviations over %s + 6 longer files; (b) all sequences of <=%d of 19 operations x 3 input forms x {1,3} sources; (b3) plot() writing files for {1,3,5} sources x 3 input forms, drawn data compared; (c) record sequences'
                       % (4 if ctx['tier'] == 'quick' else 6, 2 if ctx['tier'] == 'quick' else 3, {k: len(v) for k, v in AXES_A.items()}, 2 if ctx['tier'] == 'quick' else 3),
             'alphabet_digest': 'seed=%d' % ctx['seed']}
 
